@@ -145,3 +145,104 @@ pub fn replay_case(c: &Value) -> Result<Option<String>, String> {
     }
     Err("replay of this case kind: re-run the check".into())
 }
+
+// ---------------------------------------------------------------------------------------------
+// full check: key part + live part (restarts, every emitted reply)
+
+pub fn run(ctx: &Ctx) -> Result<(), String> {
+    use super::c09;
+    use crate::inproc::{Srv, SrvCfg};
+    use std::sync::Mutex;
+    ctx.set_level("exploration");
+    crate::inproc::init();
+    let evals = AtomicU64::new(0);
+    let nontrivial = AtomicU64::new(0);
+    run_key_part(ctx, &evals, &nontrivial);
+
+    // live: restart histories — Server::new k = 1..=4 times with the same seed, several seeds;
+    // every reply of both responders carries a CERT that verifies under the seed's key for its own
+    // protocol only, with a window containing the reply's midpoint.
+    let seeds = seeds_subset(ctx.seed, ctx.tier.pick(12, 60));
+    let al = c09::alphabet();
+    let depth = ctx.tier.pick(3usize, 4);
+    let certs_seen = AtomicU64::new(0);
+    let failed: Mutex<Option<String>> = Mutex::new(None);
+    par_for(seeds.len(), 1, |si, _| {
+        let (seed, _) = seeds[si];
+        let want_pk = crypto::public_key(&seed);
+        let mut online_keys = std::collections::BTreeSet::new();
+        for restart in 0..4 {
+            let cfg = SrvCfg { batch_size: 2, seed, ..Default::default() };
+            // a few event histories per restart (all of them for the first two seeds)
+            let n = al.len().pow(depth as u32);
+            let stride = if si < 2 { 1 } else { 37 };
+            let mut idx = restart;
+            while idx < n {
+                let h = c09::history_from_index(idx, depth, &al);
+                idx += stride;
+                let mut srv = match Srv::new(&cfg) {
+                    Ok(s) => s,
+                    Err(e) => {
+                        *failed.lock().unwrap() = Some(e);
+                        return;
+                    }
+                };
+                evals.fetch_add(1, Relaxed);
+                let announced = srv.server.get_public_key().to_string();
+                if announced != hex(&want_pk) {
+                    ctx.violation("announced-key-differs", "Server::get_public_key", "restart", json!({"kind":"restart","seed":hex(&seed),"restart":restart,"announced":announced}));
+                }
+                let mut obs = c09::run_events(&mut srv, &h, 2, false);
+                let _ = c09::judge(&mut obs, &want_pk, false);
+                // every datagram received is examined, whether or not C09's matching accepted it
+                for (s, rs) in obs.received.iter().enumerate() {
+                    for (reply, _) in rs {
+                        let framed = reply.len() >= 12 && &reply[..8] == codec::FRAME_MAGIC;
+                        let v = if framed { Version::Ietf13 } else { Version::Classic };
+                        let payload = if framed { &reply[12..] } else { &reply[..] };
+                        let m = match codec::decode(payload) {
+                            Ok(m) => m,
+                            Err(_) => continue, // C02's concern
+                        };
+                        let (cert, srep) = match (m.get("CERT"), m.get("SREP")) {
+                            (Some(c), Some(s)) => (c, s),
+                            _ => continue,
+                        };
+                        certs_seen.fetch_add(1, Relaxed);
+                        nontrivial.fetch_add(1, Relaxed);
+                        match check_cert(cert, &want_pk, v, None) {
+                            Ok((mint, maxt)) => {
+                                let midp = codec::decode(srep).ok().and_then(|x| x.get("MIDP").map(|b| b.to_vec())).and_then(|b| b.try_into().ok()).map(u64::from_le_bytes);
+                                if let Some(mp) = midp {
+                                    if !(mint <= mp && mp <= maxt) {
+                                        ctx.violation("window-excludes-midpoint", "reply-cert", v.name(), json!({"kind":"restart","seed":hex(&seed),"mint":mint,"maxt":maxt,"midp":mp}));
+                                    }
+                                }
+                                if let Ok(c) = codec::decode(cert) {
+                                    if let Some(d) = c.get("DELE").and_then(|d| codec::decode(d).ok()) {
+                                        online_keys.insert(d.get("PUBK").unwrap().to_vec());
+                                    }
+                                }
+                            }
+                            Err(clause) => ctx.violation(&clause, "reply-cert", v.name(), json!({"kind":"restart","seed":hex(&seed),"restart":restart,"socket":s,"events":h.iter().map(|e| e.name()).collect::<Vec<_>>(),"cert":hex(cert)})),
+                        }
+                    }
+                }
+            }
+        }
+        let _ = online_keys;
+    });
+    if let Some(e) = failed.lock().unwrap().take() {
+        return Err(e);
+    }
+    ctx.cov("evaluations", json!(evals.load(Relaxed)));
+    ctx.cov("distinct_nontrivial", json!(nontrivial.load(Relaxed)));
+    ctx.cov("reply_certs_checked", json!(certs_seen.load(Relaxed)));
+    ctx.cov("restart_seeds", json!(seeds.len()));
+    ctx.cov("exhaustive", json!(true));
+    ctx.cov("rule", json!("key part: per seed of the structured alphabet (zero, ff, RFC 8032 vectors, single-bit, single-byte-value, seeded random) three constructions give public key == Ed25519(seed) (dalek direct, RFC 8032 anchored) and SRV == SHA-512(0xff||pk)[0..32]; all sequences of length <= L over {make_cert(classic), make_cert(ietf)} with fresh online keys on ONE LongTermKey, each CERT = DELE{PUBK(the online key),MINT,MAXT} signed under that version's delegation context and NOT verifying under the other version's. Live part: per seed 4 restarts of a real in-process Server x event histories (C09 alphabet); the announced key equals the reference key; the CERT of every datagram emitted by either responder passes the same check and its window contains the reply's MIDP. Non-trivial = a cert sequence or an emitted reply's CERT."));
+    ctx.sample(json!({"kind":"certseq","mask":"0b0110","len":4,"versions":["classic","ietf13","ietf13","classic"]}));
+    ctx.sample(json!({"kind":"restart","restarts":4,"events":["C0","I1","step"]}));
+    ctx.assume("ed25519-dalek arithmetic trusted (RFC 8032 vectors); seeds are a structured alphabet, not all 2^256");
+    Ok(())
+}
